@@ -50,6 +50,9 @@ pub enum Frame {
     Null,
 }
 
+/// How deep arrays may be nested inside each other. Commands only need one level.
+const MAX_ARRAY_NESTING: usize = 32;
+
 impl Frame {
     /// Try to read data of a frame from the given reader.
     ///
@@ -59,6 +62,14 @@ impl Frame {
     ///
     /// [`FrameError::Incomplete`]: crate::resp::frame::Error::Incomplete
     pub fn parse(reader: &mut Cursor<&[u8]>) -> Result<Self, Error> {
+        Self::parse_nested(reader, 0)
+    }
+
+    fn parse_nested(reader: &mut Cursor<&[u8]>, depth: usize) -> Result<Self, Error> {
+        // Arrays are parsed recursively, a bound on the nesting keeps the stack bounded
+        if depth > MAX_ARRAY_NESTING {
+            return Err(Error::BadEncoding);
+        }
         match get_byte(reader)? {
             b'+' => {
                 let l = get_line(reader)?;
@@ -104,7 +115,7 @@ impl Frame {
                 // every element takes at least one byte, don't trust the length any further
                 let mut items = Vec::with_capacity(usize::min(len, reader.remaining()));
                 for _ in 0..len {
-                    items.push(Frame::parse(reader)?);
+                    items.push(Frame::parse_nested(reader, depth + 1)?);
                 }
                 Ok(Frame::Array(items))
             }
@@ -114,6 +125,13 @@ impl Frame {
 
     /// Checks if a message frame can be parsed from the reader without memory allocations.
     pub fn check(buf: &mut Cursor<&[u8]>) -> Result<(), Error> {
+        Self::check_nested(buf, 0)
+    }
+
+    fn check_nested(buf: &mut Cursor<&[u8]>, depth: usize) -> Result<(), Error> {
+        if depth > MAX_ARRAY_NESTING {
+            return Err(Error::BadEncoding);
+        }
         match get_byte(buf)? {
             b'+' => {
                 get_line(buf)?;
@@ -138,7 +156,7 @@ impl Frame {
             b'*' => {
                 let n = get_integer(buf)?;
                 for _ in 0..n {
-                    Frame::check(buf)?;
+                    Frame::check_nested(buf, depth + 1)?;
                 }
             }
             _ => return Err(Error::BadEncoding),
